@@ -292,10 +292,15 @@ class Settings(MutableMapping):
         del self._settings[key]
 
     def __iter__(self):
-        return self._settings.__iter__()
+        # A setting that only has a value awaiting acknowledgement does not
+        # exist yet: looking it up raises KeyError, so it is not listed.
+        return (
+            key for key, values in self._settings.items()
+            if values[0] is not None
+        )
 
     def __len__(self):
-        return len(self._settings)
+        return sum(1 for _ in self)
 
     def __eq__(self, other):
         if isinstance(other, Settings):
